@@ -6,7 +6,8 @@
    EncodeBody / Streaming.
 
    Encoder side.  A *source* is a script of items: messages (given by their serialisation
-   `ser`), Pending markers, at most one terminal error.  `cfg` = [role, comp (TRUE iff frames
+   `ser`), messages the codec refuses to encode ("encfail", `ser` = what it wrote before failing),
+   Pending markers, at most one terminal error.  `cfg` = [role, comp (TRUE iff frames
    are to be flagged compressed), limit].
    Decoder side.  The input is seen through a *view*: the longest run of acceptable frames
    of the delivered bytes, followed by at most one entry that says why parsing stops.      *)
@@ -19,12 +20,13 @@ OK == 0  INTERNAL == 13  OUT_OF_RANGE == 11  RESOURCE_EXHAUSTED == 8
 IsMsg(it) == it.k = "msg"
 MsgItems(items) == SelectSeq(items, LAMBDA it : it.k # "pend")      \* messages and errors, in order
 \* index (in MsgItems) of the first item that ends the call: a source error, or an oversize message
-FirstStop(mi, limit) == SelectInSeq(mi, LAMBDA it : it.k = "err" \/ (it.k = "msg" /\ Len(it.ser) > limit))
+FirstStop(mi, limit) == SelectInSeq(mi, LAMBDA it : it.k \in {"err", "encfail"} \/ (it.k = "msg" /\ Len(it.ser) > limit))
 Good(items, limit) == LET mi == MsgItems(items) f == FirstStop(mi, limit)
                       IN IF f = 0 THEN mi ELSE SubSeq(mi, 1, f - 1)
 \* final status code of the stream
 Final(items, limit) == LET mi == MsgItems(items) f == FirstStop(mi, limit)
-                       IN IF f = 0 THEN OK ELSE IF mi[f].k = "err" THEN mi[f].code ELSE OUT_OF_RANGE
+                       IN IF f = 0 THEN OK ELSE IF mi[f].k = "err" THEN mi[f].code
+                          ELSE IF mi[f].k = "encfail" THEN INTERNAL ELSE OUT_OF_RANGE
 \* identity wire of a sequence of message items
 WireOf(good, flag) == Concat([i \in 1..Len(good) |-> Frame(flag, good[i].ser)])
 
